@@ -135,6 +135,12 @@ class C17(Check):
             i += 1
             if env.mine(i):
                 yield {"k": "cprange", "lo": lo, "hi": lo + 0x10000, "step": 0x101 if env.quick else 0x11}
+        # (f) names around and beyond 2^16 UTF-16 code units
+        for ln in (4095, 4096, 4097, 65534, 65535, 65536, 65537, 70000, 131073):
+            for ch in ("n", "\u00e9", "\U0001f600"):
+                i += 1
+                if env.mine(i):
+                    yield {"k": "name", "s": (ch * ln)[: ln if len(ch) == 1 else ln]}
         # (c) boolean vectors
         for n in range(131):
             i += 1
